@@ -41,6 +41,8 @@ func propBackendModel(c *Case) {
 
 		cfg := cache.Config{
 			TimeToLive: cfgTTL, ExpirationJitter: jit, ItemsCountReportInterval: farFuture,
+			// no limit is configured, nothing is ever evicted: the strategy only changes what reads and writes keep track of
+			EvictionStrategy: cache.EvictionStrategy(c.Weighted("EvictionStrategy", 2, 1, 1)),
 			// the janitor never runs: an entry is an entry however long ago it expired
 			DeleteExpiredJobInterval: farFuture, DeleteExpiredAfter: []time.Duration{farFuture, 0, time.Second, time.Nanosecond}[c.Pick("DeleteExpiredAfter", 4)],
 		}
